@@ -119,10 +119,15 @@ def _butterworth(ck: Checker, prog: Program):
 
     SIGS = {"butter": ["N", "Wn", "btype", "analog", "output", "fs"], "sosfiltfilt": ["sos", "x", "axis", "padtype", "padlen"]}   # scipy.signal
 
+    # defaults of the scipy.signal signatures: an argument spelled out with its default value is the default
+    SCIPY_DEFAULTS = {"butter": {"btype": "'low'", "analog": "False", "output": "'ba'", "fs": "None"},
+                      "sosfiltfilt": {"axis": "-1", "padtype": "'odd'", "padlen": "None"}}
+
     def hook(call, T):
         if isinstance(call.func, ast.Name) and call.func.id in SIGS:
             b = bind_call(call, SIGS[call.func.id])
-            return F(call.func.id)(*[T.tr(b[p_]) if p_ in b else sp.Symbol("<default>") for p_ in SIGS[call.func.id]])
+            dfl = SCIPY_DEFAULTS[call.func.id]
+            return F(call.func.id)(*[T.tr(b[p_]) if p_ in b and not (p_ in dfl and unparse(b[p_]) == dfl[p_]) else sp.Symbol("<default>") for p_ in SIGS[call.func.id]])
         return None
     leaves = PathTable(prog, bf.module, call_hook=hook, unroll=True).leaves(bf.node.body)
     R_ = lambda n: sp.Symbol(n, real=True)   # noqa: E731
